@@ -76,7 +76,7 @@ fn parse() -> Args {
 }
 
 fn crash_file(prop: &str) -> String {
-    let dir = format!("{VERIF_DIR}/.build/run");
+    let dir = format!("{}/.build/run", verif_dir());
     let _ = std::fs::create_dir_all(&dir);
     format!("{dir}/crash-{prop}-{}.txt", std::process::id())
 }
@@ -199,8 +199,8 @@ fn supervise(args: &Args) -> i32 {
             _ => {
                 // reproduced: abort or hang in isolation
                 let what = if timed_out { "hang" } else { "abort" };
-                let path = format!("{VERIF_DIR}/replays/{}-crash-{}-{}.json", args.prop, sub, idx);
-                let _ = std::fs::create_dir_all(format!("{VERIF_DIR}/replays"));
+                let path = format!("{}/replays/{}-crash-{}-{}.json", verif_dir(), args.prop, sub, idx);
+                let _ = std::fs::create_dir_all(format!("{}/replays", verif_dir()));
                 let body = serde_json::json!({
                     "property": args.prop, "tier": args.tier.name(), "seed": args.seed,
                     "key": format!("{what}:process"), "ord": sub, "idx": idx,
@@ -220,7 +220,7 @@ fn supervise(args: &Args) -> i32 {
                 "samples": ["see replay files"], "explanation": "run aborted by a crash/hang of the code under test"},
             "wall_s": 0.0, "violations": found
         });
-        let _ = std::fs::write(format!("{VERIF_DIR}/evidence/{}.json", args.prop), serde_json::to_string_pretty(&ev).unwrap());
+        let _ = std::fs::write(format!("{}/evidence/{}.json", verif_dir(), args.prop), serde_json::to_string_pretty(&ev).unwrap());
         1
     } else {
         eprintln!("agv: MACHINERY FAILURE: worker died but no candidate case reproduces in isolation");
